@@ -116,6 +116,9 @@ func metricsOnly(m ...any) bool          { return true }
 // hasKey(m, k): map m has an entry for k. cur(x): the current value of a reassigned parameter / local.
 func hasKey[K comparable, V any](m map[K]V, k K) bool { _, ok := m[k]; return ok }
 
+// captured[T](): the one variable of type T captured by the closure under contract.
+func captured[T any]() T { var z T; return z }
+
 // bufWrites(b) / bufLen(b): ghost counters of a bytes.Buffer (Write calls, bytes written).
 func bufWrites(b any) int { return 0 }
 func bufLen(b any) int    { return 0 }
